@@ -163,4 +163,7 @@ REFACTORS = [
     # S50: LWWReg::set with the greater-clock case first
     ("s50", "crates/radicle-crdt/src/lwwreg.rs", "        if clock == self.clock {\n            self.value.merge(value);\n        } else if clock > self.clock {\n            self.clock.merge(clock);\n            self.value = value;\n        }",
      "        if clock > self.clock {\n            self.clock = clock;\n            self.value = value;\n        } else if clock == self.clock {\n            self.value.merge(value);\n        }", 1),
+    # S51: ZeroBytes decoder reading the padding in blocks with read_exact (short input is still an EOF error)
+    ("s51", N + "wire/message.rs", "        for _ in 0..zeroes {\n            // Padding is all zeroes. Anything else would decode to the same value\n            // as the all-zero padding, giving one message several encodings.\n            if u8::decode(reader)? != 0 {\n                return Err(wire::Error::UnexpectedBytes);\n            }\n        }\n        Ok(ZeroBytes::new(zeroes))",
+     "        let mut left = usize::from(zeroes);\n        let mut block = [0u8; 256];\n        while left > 0 {\n            let n = left.min(block.len());\n            reader.read_exact(&mut block[..n])?;\n            // Padding is all zeroes.\n            if block[..n].iter().any(|b| *b != 0) {\n                return Err(wire::Error::UnexpectedBytes);\n            }\n            left -= n;\n        }\n        Ok(ZeroBytes::new(zeroes))", 1),
 ]
